@@ -61,20 +61,23 @@ theorem goodF_nbig (p : NumSpec α) (h : p.nonNeg = false) : GoodF p (nbig : α)
 /-- what `sanitize` can return -/
 inductive Stored (p : NumSpec α) : Val α → Prop where
   | good (x : α) (h : GoodF p x) : Stored p (.flt x)
-  | nan (hd : p.default = .none) (hm : p.mandatory = false) : Stored p .nan
+  | nan (hd : p.default = .none ∨ p.default = .nan) (hm : p.mandatory = false) : Stored p .nan
 
 theorem sanitize_stored_eq (p : NumSpec α) (w : Val α) (h : Stored p w) : sanitize p w = .ok w := by
   cases h with
   | good x h => exact sanitize_good p x h
-  | nan hd hm => simp [sanitize, numAdd, nanToNone, fillDefault, hd, hm, corrections, Val.isFloat, toArr, bind, Except.bind]
+  | nan hd hm =>
+    rcases hd with hd | hd <;>
+      simp [sanitize, numAdd, nanToNone, fillDefault, hd, hm, corrections, Val.isFloat, toArr, bind, Except.bind,
+        fixZero, Val.isZero, fixPos, Val.isPos, fixNeg, Val.isNeg]
 
 /-- the stored image of the default -/
-theorem default_stored (p : NumSpec α) (hok : defaultOkB p = true) (hm : p.default = .none → p.mandatory = false) (w : Val α)
+theorem default_stored (p : NumSpec α) (hok : defaultOkB p = true) (hm : (p.default = .none ∨ p.default = .nan) → p.mandatory = false) (w : Val α)
     (h : toArr p.default = .ok w) : Stored p w := by
   unfold defaultOkB at hok
   cases hd : p.default with
-  | none => simp [hd, toArr] at h; subst h; exact .nan hd (hm hd)
-  | nan => simp [hd] at hok
+  | none => simp [hd, toArr] at h; subst h; exact .nan (Or.inl hd) (hm (Or.inl hd))
+  | nan => simp [hd, toArr] at h; subst h; exact .nan (Or.inr hd) (hm (Or.inr hd))
   | pinf => simp [hd] at hok
   | ninf => simp [hd] at hok
   | str s => simp [hd, toArr] at h
@@ -153,9 +156,9 @@ theorem corrections_ninf (p : NumSpec α) (u : Val α) (h : corrections p (.ninf
   · exact Or.inl ⟨hu, hf⟩
   · simp [Val.isNeg] at hb; subst hb; simp at hc; exact Or.inr ⟨hu, hc⟩
 
-theorem defaultOk_none_noflags (p : NumSpec α) (hok : defaultOkB p = true) (hd : p.default = .none) :
+theorem defaultOk_none_noflags (p : NumSpec α) (hok : defaultOkB p = true) (hd : p.default = .none ∨ p.default = .nan) :
     p.nonZero = false ∧ p.nonPos = false ∧ p.nonNeg = false := by
-  unfold defaultOkB at hok; simp [hd] at hok; exact ⟨hok.1.1, hok.1.2, hok.2⟩
+  unfold defaultOkB at hok; rcases hd with hd | hd <;> simp [hd] at hok <;> exact ⟨hok.1.1, hok.1.2, hok.2⟩
 
 /-- every value `sanitize` returns is a stored value of its parameter (no int input out of range) -/
 theorem sanitize_stored (p : NumSpec α) (v w : Val α) (hok : defaultOkB p = true)
@@ -165,9 +168,9 @@ theorem sanitize_stored (p : NumSpec α) (v w : Val α) (hok : defaultOkB p = tr
   · simp at h
   rename_i u hu
   -- the default branch
-  have hdef : ∀ (hm : p.default = .none → p.mandatory = false), u = p.default → Stored p w :=
+  have hdef : ∀ (hm : (p.default = .none ∨ p.default = .nan) → p.mandatory = false), u = p.default → Stored p w :=
     fun hm e => default_stored p hok hm w (e ▸ h)
-  have hflag : (p.nonZero = true ∨ p.nonPos = true ∨ p.nonNeg = true) → p.default = .none → p.mandatory = false := by
+  have hflag : (p.nonZero = true ∨ p.nonPos = true ∨ p.nonNeg = true) → (p.default = .none ∨ p.default = .nan) → p.mandatory = false := by
     intro hf hd
     have := defaultOk_none_noflags p hok hd
     simp [this] at hf
@@ -181,7 +184,10 @@ theorem sanitize_stored (p : NumSpec α) (v w : Val α) (hok : defaultOkB p = tr
     | flt x => rw [hd] at hc; rcases corrections_flt p x u' hc with ⟨e, -⟩ | ⟨e, -⟩ <;> simp [e, hd]
     | pinf => unfold defaultOkB at hok; simp [hd] at hok
     | ninf => unfold defaultOkB at hok; simp [hd] at hok
-    | nan => unfold defaultOkB at hok; simp [hd] at hok
+    | nan =>
+      rw [hd] at hc
+      simp [corrections, Val.isFloat, fixZero, Val.isZero, fixPos, Val.isPos, fixNeg, Val.isNeg, bind, Except.bind] at hc
+      exact hc.symm
     | none => rw [hd] at hc; simp [corrections, Val.isFloat] at hc; exact hc.symm
     | int z => rw [hd] at hc; simp [corrections, Val.isFloat] at hc; exact hc.symm
     | str z => rw [hd] at hc; simp [corrections, Val.isFloat] at hc; exact hc.symm
